@@ -49,6 +49,7 @@ var c10Alphabet = []impl.Event{
 	{K: impl.EvNS, Local: "", Value: adoc.URI_D},
 	{K: impl.EvNS, Local: "q", Value: adoc.URI_U},
 	{K: impl.EvNS, Local: "", Value: ""},
+	{K: impl.EvNS, Local: "p", Value: ""}, // an ordinary namespace node with an empty value (overrides the inherited p), not an un-declaration
 }
 
 // c10Next applies event e to state s if the Parser contract allows it.
@@ -265,7 +266,7 @@ func C10CheckTree(root store.Cursor, model *adoc.Doc) string {
 }
 
 func C10(c *run.Check) {
-	c.Rule = "explicit-state BFS over the Parser-contract automaton (13-event alphabet); state = legal event prefix canonicalised by dropping surplus end events except one at the very end (so every event is also replayed directly after a surplus end); every transition replays prefix+event+closing ends into a fresh store.CreateInMemory; non-trivial = distinct resulting model tree"
+	c.Rule = "explicit-state BFS over the Parser-contract automaton (14-event alphabet); state = legal event prefix canonicalised by dropping surplus end events except one at the very end (so every event is also replayed directly after a surplus end); every transition replays prefix+event+closing ends into a fresh store.CreateInMemory; non-trivial = distinct resulting model tree"
 	maxDepth := 6
 	if !c.Quick() {
 		maxDepth = 8
